@@ -212,6 +212,25 @@ def find_func(tu, name, rec_prefix=None, pick=None):
     return out[0]
 
 
+def member_callees(tu, fn):
+    """member functions of fn's own record that fn's body calls directly, in order of first call (by declaration id: the
+    names of private helpers are not part of the interface)"""
+    rec = tu.parent_rec.get(fn['id'])
+    out, seen = [], set()
+
+    def walk(n):
+        if isinstance(n, dict):
+            if n.get('kind') == 'MemberExpr' and n.get('referencedMemberDecl'):
+                f = tu.func(n['referencedMemberDecl']) if hasattr(tu, 'func') else tu.funcs.get(n['referencedMemberDecl'])
+                if f is not None and rec is not None and (tu.parent_rec.get(f['id']) or {}).get('id') == rec['id'] and f['id'] not in seen and f['id'] != fn['id']:
+                    seen.add(f['id'])
+                    out.append(f)
+            for c in n.get('inner') or []:
+                walk(c)
+    walk(fn)
+    return out
+
+
 class UnitResult:
     pass
 
@@ -302,7 +321,9 @@ class Unit:
     def emit_inst(self, it, inst_fn, facts):
         tu = self.tu
         self._loops_applied = 0
+        self._root_id = None
         root = it.root_pick(tu, inst_fn) if it.root_pick else find_root(tu, inst_fn)
+        self._root_id = root['id']
         if it.root_name and root.get('name') != it.root_name:
             raise ExtractError('snippet %s binds to %s, expected %s' % (it.name, root.get('name'), it.root_name))
         active = [((k,) + LEAVES[k]) if isinstance(k, str) else tuple(k) for k in it.leaves]
@@ -460,6 +481,8 @@ class Unit:
             cname, o = m.group(1), int(m.group(2))
             key = (fn.get('name'), o)
             lc = it.loop_contracts.get(key)
+            if lc is None and fn.get('id') == getattr(self, '_root_id', None):
+                lc = it.loop_contracts.get(('*root*', o))      # keyed to "the root function", whatever it is called
             if lc:
                 if '$LV' in lc and not m.group(3):
                     raise ExtractError('loop contract uses $LV but the loop declares no induction variable')
